@@ -42,6 +42,8 @@ structure Encodes (pp : Params F D) (coeffs : List F) (E : List F → List F) (k
   enc : ∀ x, x.length = (coeffMat pp.dims coeffs).m → pp.enc x = .ok (E x)
   rows : 0 < (coeffMat pp.dims coeffs).n
   two : 2 ≤ k
+  /-- the coefficient vector fits the matrix (in domain: not larger than the key was made for) -/
+  fits : fitsDims pp.dims coeffs = true
 
 /-- the encoded matrix of an honest commitment -/
 def extOf (pp : Params F D) (coeffs : List F) (E : List F → List F) (k : Nat) : Mat F :=
@@ -58,11 +60,27 @@ theorem depth_pos_of_two {l : List D} (h : 2 ≤ l.length) : depth l ≠ 0 := by
   have := ceilLog2_pos h
   unfold depth; omega
 
+/-- an answer of `compute_matrices` means: the coefficients fit, and the core computation gave it -/
+theorem computeMatrices_ok (pp : Params F D) (coeffs : List F) (r : Mat F × Mat F)
+    (h : computeMatrices pp coeffs = .ok r) :
+    fitsDims pp.dims coeffs = true ∧ computeMatricesCore pp coeffs = .ok r := by
+  unfold computeMatrices at h
+  cases hf : fitsDims pp.dims coeffs with
+  | false => rw [hf] at h; simp at h
+  | true => rw [hf] at h; simpa using h
+
+/-- more coefficients than the matrix has entries: refused -/
+theorem computeMatrices_oversize (pp : Params F D) (coeffs : List F)
+    (h : fitsDims pp.dims coeffs = false) : computeMatrices pp coeffs = .error .abort := by
+  unfold computeMatrices; rw [if_pos h]
+
 theorem computeMatrices_eq (pp : Params F D) (coeffs : List F) (E : List F → List F) (k : Nat)
     (h : Encodes pp coeffs E k) :
     computeMatrices pp coeffs = .ok (coeffMat pp.dims coeffs, extOf pp coeffs E k) := by
   have hrl := coeffMat_row_length pp.dims coeffs
   unfold computeMatrices
+  rw [if_neg (by rw [h.fits]; exact Bool.noConfusion)]
+  unfold computeMatricesCore
   simp only
   rw [encodeRows_eq pp.enc E _ (fun r hr => h.enc r (hrl r hr))]
   simp only
